@@ -1,0 +1,136 @@
+//go:build verif
+
+package compile
+
+import "sort"
+
+// LinkOrder chooses, at every point where Compile iterates over a Go map
+// (whose order is unspecified), the order to use instead.
+//
+// Pick is called with the thrift path of the module, the kind of map
+// ("includes", "types", "constants" or "services") and its keys in sorted
+// order; it returns the keys in the order they should be visited.
+type LinkOrder struct {
+	Pick func(module, where string, sortedKeys []string) []string
+}
+
+func (o LinkOrder) pick(module, where string, keys []string) []string {
+	sort.Strings(keys)
+	if o.Pick == nil {
+		return keys
+	}
+	return o.Pick(module, where, keys)
+}
+
+// CompileWithLinkOrder is Compile with the resolution order of modules and of
+// the definitions inside each module chosen by the caller.
+//
+// It first links everything in the requested order, in the same manner as
+// Compile does, and then runs the regular link pass of Compile. Linking is
+// idempotent so the regular pass only performs its post-link validation. This
+// hook exists only for verification builds (build tag "verif").
+func CompileWithLinkOrder(path string, order LinkOrder, opts ...Option) (*Module, error) {
+	c := newCompiler()
+	for _, opt := range opts {
+		opt(&c)
+	}
+
+	m, err := c.load(path)
+	if err != nil {
+		return nil, err
+	}
+
+	if err := walkOrdered(m, order, func(m *Module) error {
+		if err := preLink(m, order); err != nil {
+			return compileError{Target: m.ThriftPath, Reason: err}
+		}
+		return nil
+	}); err != nil {
+		return m, err
+	}
+
+	err = m.Walk(func(m *Module) error {
+		if err := c.link(m); err != nil {
+			return compileError{
+				Target: m.ThriftPath,
+				Reason: err,
+			}
+		}
+		return nil
+	})
+	return m, err
+}
+
+// walkOrdered is Module.Walk with the order of includes chosen by order.
+func walkOrdered(m *Module, order LinkOrder, f func(*Module) error) error {
+	visited := make(map[string]struct{})
+	toVisit := []*Module{m}
+	for len(toVisit) > 0 {
+		m := toVisit[0]
+		toVisit = toVisit[1:]
+		if _, ok := visited[m.ThriftPath]; ok {
+			continue
+		}
+		visited[m.ThriftPath] = struct{}{}
+
+		names := make([]string, 0, len(m.Includes))
+		for name := range m.Includes {
+			names = append(names, name)
+		}
+		for _, name := range order.pick(m.ThriftPath, "includes", names) {
+			if inc, ok := m.Includes[name]; ok {
+				toVisit = append(toVisit, inc.Module)
+			}
+		}
+
+		if err := f(m); err != nil {
+			return err
+		}
+	}
+	return nil
+}
+
+// preLink links the definitions of m the way compiler.link does, in the
+// chosen order.
+func preLink(m *Module, order LinkOrder) error {
+	typeNames := make([]string, 0, len(m.Types))
+	for name := range m.Types {
+		typeNames = append(typeNames, name)
+	}
+	for _, name := range order.pick(m.ThriftPath, "types", typeNames) {
+		typ, ok := m.Types[name]
+		if !ok {
+			continue
+		}
+		var err error
+		m.Types[name], err = typ.Link(m)
+		if err != nil {
+			return compileError{Target: name, Reason: err}
+		}
+	}
+
+	constNames := make([]string, 0, len(m.Constants))
+	for name := range m.Constants {
+		constNames = append(constNames, name)
+	}
+	for _, name := range order.pick(m.ThriftPath, "constants", constNames) {
+		if constant, ok := m.Constants[name]; ok {
+			if err := constant.Link(m); err != nil {
+				return compileError{Target: name, Reason: err}
+			}
+		}
+	}
+
+	serviceNames := make([]string, 0, len(m.Services))
+	for name := range m.Services {
+		serviceNames = append(serviceNames, name)
+	}
+	for _, name := range order.pick(m.ThriftPath, "services", serviceNames) {
+		if service, ok := m.Services[name]; ok {
+			if err := service.Link(m); err != nil {
+				return compileError{Target: name, Reason: err}
+			}
+		}
+	}
+	return nil
+}
